@@ -204,6 +204,6 @@ def run(ctx):
     ctx.guarded(r, lambda rule: J.r3_callbacks(rule, files=["fidget-jit/src/x86_64/interval.rs"]))
     ctx.guarded(r, AC.check_choice_protocol, "interval")
     r = ctx.rule("R3c", "sibling assemblers agree on magic constants", 5)
-    ctx.guarded(r, AC.check_magic_constants)
+    ctx.guarded(r, AC.check_magic_constants, focus="interval")
     r = ctx.rule("R4", "Transformable for Interval is the homogeneous transform of its f32 and Grad siblings", 3)
     ctx.guarded(r, lambda rule: SC.r_transformable(rule, ("Interval",)))
